@@ -36,6 +36,8 @@ fn c01_spec() -> CheckSpec {
         plans: vec![
             ScenarioPlan { scenario: Box::new(c01::C01Cycles { faults: false }), quick_runs: 12_000, thorough_runs: 1_000_000 },
             ScenarioPlan { scenario: Box::new(c01::C01Cycles { faults: true }), quick_runs: 6_000, thorough_runs: 400_000 },
+            // only used to replay known findings that are recorded as literal input
+            ScenarioPlan { scenario: Box::new(c01::C01FixedInput), quick_runs: 0, thorough_runs: 0 },
         ],
     }
 }
